@@ -372,9 +372,14 @@ def family_val():
     add("other_field_untouched", ["o = K(1)", "o.w = 7", "o.v = 2", "q = o.w", "return q"], helpers=KV)
     add("call_sites", ["r1 = h(10)", "r2 = h(20)", "return r1"], helpers=HV)
     add("call_sites_in_arms", ["if c:", "    r = h(1)", "else:", "    r = h(5)", "s = r", "return s"], helpers=HV)
+    add("call_sites_through_wrapper", ["r1 = gw(11)", "r2 = gw(12)", "return r2"], helpers=HV + "\ndef gw(v):\n    w = h(v)\n    return w\n")
+    add("call_sites_wrapper_and_direct", ["r1 = gw(1)", "r2 = h(5)", "r3 = gw(9)", "return r3"], helpers=HV + "\ndef gw(v):\n    w = h(v)\n    return w\n")
+    add("call_sites_three", ["r1 = h(1)", "r2 = h(2)", "r3 = h(3)", "s = r2", "return s"], helpers=HV)
+    add("call_site_arg_from_branch", ["if c:", "    x = 1", "else:", "    x = 2", "r1 = h(x)", "r2 = h(7)", "return r2"], helpers=HV)
     add("callee_two_returns", ["r = h2(c)", "return r"], helpers="def h2(p):\n    if p:\n        return 1\n    return 2\n")
     add("param_alias_write", ["o = K(1)", "s0(o)", "t = o.v", "return t"], helpers=KV + "\ndef s0(q):\n    q.v = 8\n")
     add("callee_reads_field", ["o = K(4)", "t = g0(o)", "return t"], helpers=KV + "\ndef g0(q):\n    return q.v\n")
+    add("helper_writes_field_of_argument", ["o = K(0)", "seta(o, 1)", "t = o.v", "return t"], helpers=KV + "\ndef seta(q, x):\n    q.v = x\n", exact=False)
     add("list_elements", ["l = [1, 2]", "x = l[0]", "l[1] = 5", "y = l[1]", "return y"], exact=False)
     add("dict_elements", ["d = {'k': 1}", "d['j'] = 2", "x = d['k']", "return x"], exact=False)
     add("copy_chain", ["x = 4", "y = x", "z = y", "x = 6", "w = z", "return w"])
@@ -383,6 +388,14 @@ def family_val():
 
 def val_witnesses():
     W = []
+
+    def addw(name, lines, known, helpers=""):
+        p = prog(name, "witness", lines, helpers=helpers, known=known)
+        p["src"] += TAIL
+        p["exact"] = False
+        W.append(p)
+    addw("w_may_alias_strong_update", ["o = K(0)", "q = K(1)", "if c:", "    u = o", "else:", "    u = q", "u.v = 7", "t = o.v", "return t"],
+         "field write through a variable that may refer to two objects updates both strongly", helpers=KV)
 
     def add(name, lines, known, helpers=""):
         p = prog(name, "witness", lines, helpers=helpers, known=known)
